@@ -377,6 +377,7 @@ def gen_cfg(rng, prob_spec, small=True, networks=None, pool=None, n_batch=None, 
         n_eff=int(rng.choice([200, 500, 1000])),
         n_shell=int(rng.choice([1, 1, 5, n_batch + 1])),
         discard_exploration=bool(rng.random() < 0.5))
+    cfg['nn_activation'] = str(rng.choice(['relu', 'relu', 'tanh', 'logistic']))
     if prob_spec['family'] == 'periodic':
         per = prob_spec['par']['periodic']
         cfg['periodic'] = ([int(v) for v in rng.permutation(per)] if rng.random() < 0.5 else per) if rng.random() < 0.8 else None
@@ -395,7 +396,8 @@ def make_sampler(prob, cfg, filepath=None, resume=True, likelihood=None):
     kw = dict(n_live=cfg['n_live'], n_update=cfg['n_update'], enlarge_per_dim=cfg['enlarge_per_dim'],
               n_points_min=cfg['n_points_min'], split_threshold=cfg['split_threshold'],
               periodic=np.array(cfg['periodic']) if cfg['periodic'] is not None else None,
-              n_networks=cfg['n_networks'], neural_network_kwargs=dict(NN_KW), n_batch=cfg['n_batch'],
+              n_networks=cfg['n_networks'],
+              neural_network_kwargs=dict(NN_KW, activation=cfg.get('nn_activation', 'relu')), n_batch=cfg['n_batch'],
               n_like_new_bound=cfg['n_like_new_bound'], vectorized=prob.vectorized, pool=pool,
               seed=cfg['seed'], blobs_dtype=blob_dtype_arg(prob.blob_kind), filepath=filepath, resume=resume)
     prior = prob.prior_arg()
